@@ -258,3 +258,199 @@ func ruleAllocBound(c *Ctx) {
 	c.minInstances("integer taint roots (API parameters and decoded integers)", nRoots, 15)
 	c.minInstances("dynamically sized allocations examined", n, 8)
 }
+
+// ---------------------------------------------------------------------------
+// R-LASTELEM (C20): an element access or slice start of the form x[S-k] (k >= 1), where S is a
+// length (len(...) or the result of a module function that returns a len), panics when S < k.
+// Every such access must be dominated by a comparison that establishes S >= k (S > 0, S != 0,
+// len(x) == 0 -> return, ...). Accesses indexed by loop variables or by two symbols are outside
+// this rule (they need a range prover).
+
+// lenLike: v is len(...) or the int result of a module function all of whose returns yield len(...) or 0.
+func lenLike(p *Prog, v ssa.Value, depth int) bool {
+	v = resolve1(v)
+	switch x := v.(type) {
+	case *ssa.Call:
+		if bi, ok := x.Call.Value.(*ssa.Builtin); ok {
+			return bi.Name() == "len"
+		}
+		cal := x.Call.StaticCallee()
+		if cal != nil && p.inModule(cal) && cal.Blocks != nil && cal.Signature.Results().Len() == 1 && depth < 3 {
+			return retLenLike(p, cal, 0, depth)
+		}
+	case *ssa.Extract:
+		if call, ok := x.Tuple.(*ssa.Call); ok {
+			cal := call.Call.StaticCallee()
+			if cal != nil && p.inModule(cal) && cal.Blocks != nil && depth < 3 {
+				return retLenLike(p, cal, x.Index, depth)
+			}
+		}
+	}
+	return false
+}
+
+func retLenLike(p *Prog, f *ssa.Function, idx int, depth int) bool {
+	rets := returnsOf(f)
+	if len(rets) == 0 {
+		return false
+	}
+	for _, r := range rets {
+		if idx >= len(r.Results) {
+			return false
+		}
+		for _, v := range resolve(r.Results[idx]) {
+			if k, ok := constInt(v); ok && k == 0 {
+				continue
+			}
+			if !lenLike(p, v, depth+1) {
+				return false
+			}
+		}
+	}
+	return true
+}
+
+// lowerBoundEdges: edges of fn on which sym >= need is known, from comparisons whose linear difference is ±sym + c.
+func lowerBoundEdges(fn *ssa.Function, symName string, symf func(ssa.Value) string, need int64, nonNeg bool) []succEdge {
+	var out []succEdge
+	for _, ifi := range ifsOf(fn) {
+		a := decomposeIf(ifi)
+		if a.X == nil || a.Y == nil {
+			continue
+		}
+		d := linAdd(linOf(a.X, symf), linOf(a.Y, symf), -1)
+		if len(d.terms) != 1 {
+			continue
+		}
+		coef, ok := d.terms[symName]
+		if !ok || (coef != 1 && coef != -1) {
+			continue
+		}
+		op := a.Op
+		c := d.c // coef*S + c op 0
+		if coef == -1 {
+			// -S + c op 0  <=>  S - c op' 0 with op' mirrored
+			c = -c
+			switch op {
+			case token.LSS:
+				op = token.GTR
+			case token.LEQ:
+				op = token.GEQ
+			case token.GTR:
+				op = token.LSS
+			case token.GEQ:
+				op = token.LEQ
+			}
+		}
+		// now: S + c op 0, i.e. S op -c
+		b := -c
+		var lbTrue, lbFalse int64 = -1 << 62, -1 << 62
+		switch op {
+		case token.GTR:
+			lbTrue = b + 1
+		case token.GEQ:
+			lbTrue = b
+		case token.LSS:
+			lbFalse = b
+		case token.LEQ:
+			lbFalse = b + 1
+		case token.EQL:
+			lbTrue = b
+			if b == 0 && nonNeg {
+				lbFalse = 1
+			}
+		case token.NEQ:
+			lbFalse = b
+			if b == 0 && nonNeg {
+				lbTrue = 1
+			}
+		default:
+			continue
+		}
+		t, f := 0, 1
+		if a.Neg {
+			t, f = 1, 0
+		}
+		if lbTrue >= need {
+			out = append(out, succEdge{ifi.Block(), t})
+		}
+		if lbFalse >= need {
+			out = append(out, succEdge{ifi.Block(), f})
+		}
+	}
+	return out
+}
+
+func ruleLastElem(c *Ctx) {
+	n := 0
+	for _, f := range c.P.SrcFuncs {
+		if !c.P.inModule(f) {
+			continue
+		}
+		k := 0
+		check := func(in ssa.Instruction, idx ssa.Value, what string) {
+			if idx == nil {
+				return
+			}
+			// the symbol: a len-like value
+			var symVal ssa.Value
+			symf := func(v ssa.Value) string {
+				v = resolve1(v)
+				if call, ok := v.(*ssa.Call); ok {
+					if bi, ok := call.Call.Value.(*ssa.Builtin); ok && bi.Name() == "len" {
+						return "len(" + pathOf(call.Call.Args[0]) + ")"
+					}
+				}
+				return pathOf(v)
+			}
+			d := linOf(idx, symf)
+			if len(d.terms) != 1 || d.c >= 0 {
+				return
+			}
+			var name string
+			for s, co := range d.terms {
+				if co != 1 {
+					return
+				}
+				name = s
+			}
+			// find the value behind the symbol
+			backSlice(idx, func(v ssa.Value) {
+				if symVal == nil && symf(v) == name && lenLike(c.P, v, 0) {
+					symVal = v
+				}
+			})
+			if symVal == nil {
+				return
+			}
+			// the length of a parameter of an unexported function: the guard may live in the callers (out of scope)
+			if call, ok := resolve1(symVal).(*ssa.Call); ok {
+				if _, isLen := call.Call.Value.(*ssa.Builtin); isLen {
+					root, _ := splitPath(call.Call.Args[0])
+					if _, isParam := root.(*ssa.Parameter); isParam && (f.Object() == nil || !f.Object().Exported()) {
+						return
+					}
+				}
+			}
+			need := -d.c
+			n++
+			k++
+			c.touch(f)
+			edges := lowerBoundEdges(f, name, symf, need, true)
+			c.check(len(edges) > 0 && edgesDominate(f, edges, in.Block()), fnName(f), fmt.Sprintf("%s #%d at length-%d is guarded by length >= %d", what, k, need, need), c.P.ipos(in), "",
+				fmt.Sprintf("an element is addressed at (length - %d) with nothing on the path establishing length >= %d: for an empty (or too short) list/slice the index is negative and the call, or the Commit/Open that replays it, panics with 'index out of range'", need, need))
+		}
+		instrs(f, func(in ssa.Instruction) {
+			switch x := in.(type) {
+			case *ssa.IndexAddr:
+				check(in, x.Index, "element access")
+			case *ssa.Index:
+				check(in, x.Index, "element access")
+			case *ssa.Slice:
+				check(in, x.Low, "slice start")
+			}
+		})
+	}
+	c.Sites += n
+	c.minInstances("accesses at (length - k)", n, 2)
+}
